@@ -632,3 +632,112 @@ pub fn binding_violation(real: &Real, open: &BTreeMap<u32, String>) -> Option<St
     }
     None
 }
+
+/// C18: replay the histories of an ops file on every backend / chunking / buffer size / version
+/// variant and compare with the in-memory baseline.
+pub fn variants(ops_path: &str, scratch: &str) -> (u64, Vec<String>) {
+    use crate::api::BackendKind;
+    use crate::backend::Chunking;
+    let text = std::fs::read_to_string(ops_path).unwrap();
+    let mut histories: Vec<Vec<String>> = Vec::new();
+    for line in text.lines() {
+        if line.starts_with("create ") {
+            histories.push(Vec::new());
+        }
+        if let Some(h) = histories.last_mut() {
+            if !line.starts_with("snap ") {
+                h.push(line.to_string());
+            }
+        }
+    }
+    let run = |h: &Vec<String>, backend: BackendKind, maxbuf: Option<usize>, version: Option<u8>| -> (Vec<String>, Vec<String>, Vec<u8>) {
+        let mut real = Real::new();
+        real.backend = backend;
+        real.maxbuf = maxbuf;
+        real.force_version = version;
+        let mut results = Vec::new();
+        let mut tables = Vec::new();
+        for line in h {
+            let o = real.exec(line);
+            tables.push(catch(|| real.dirtable()).unwrap_or_default());
+            let dead = o == "panic";
+            results.push(o);
+            if dead {
+                break;
+            }
+        }
+        real.handles.clear();
+        if let Some(c) = real.comp.as_mut() {
+            let _ = c.flush();
+        }
+        let img = real.image();
+        (results, tables, img)
+    };
+    let mut violations = Vec::new();
+    let mut evaluations = 0u64;
+    std::fs::create_dir_all(scratch).unwrap();
+    for (i, h) in histories.iter().enumerate() {
+        let (r0, t0, img0) = run(h, BackendKind::Mem, None, None);
+        let file_path = format!("{}/c18_{}.cfb", scratch, i);
+        let same_bytes: Vec<(&str, BackendKind)> = vec![
+            ("second run", BackendKind::Mem),
+            ("std::fs::File", BackendKind::File(file_path.clone())),
+            ("1-byte transfers", BackendKind::Chunky(Chunking::OneByte)),
+            ("random short transfers", BackendKind::Chunky(Chunking::RandomShort)),
+            ("Interrupted then retry", BackendKind::Chunky(Chunking::Interrupted)),
+        ];
+        for (name, b) in same_bytes {
+            let (r, t, img) = run(h, b, None, None);
+            evaluations += 1;
+            if r != r0 {
+                let k = r.iter().zip(r0.iter()).position(|(a, b)| a != b).unwrap_or(r.len().min(r0.len()));
+                violations.push(format!("history {} on backend `{}`: result of step {} ({}) is {} but {} on the in-memory backend", i, name, k, short(&h[k.min(h.len() - 1)]), short(r.get(k).map(|s| s.as_str()).unwrap_or("<none>")), short(r0.get(k).map(|s| s.as_str()).unwrap_or("<none>"))));
+            } else if t != t0 {
+                violations.push(format!("history {} on backend `{}`: the directory table differs from the in-memory run", i, name));
+            } else if img != img0 {
+                let k = img.iter().zip(img0.iter()).position(|(a, b)| a != b).unwrap_or(img.len().min(img0.len()));
+                violations.push(format!("history {} on backend `{}`: the file differs from the in-memory run at byte {} (lengths {} / {})", i, name, k, img.len(), img0.len()));
+            }
+        }
+        let _ = std::fs::remove_file(&file_path);
+        // while a handle holds unflushed data, listed lengths depend on when the buffer was written
+        // back, i.e. on its size: those results are not compared across buffer sizes
+        let mut unspecified = vec![false; h.len()];
+        {
+            let mut dirty: std::collections::BTreeSet<String> = Default::default();
+            for (k, line) in h.iter().enumerate() {
+                let t: Vec<&str> = line.split(' ').collect();
+                match t[0] {
+                    "hwrite" | "hsetlen" => { dirty.insert(t[1].to_string()); }
+                    "hflush" | "hclose" | "hopen" | "hnew" | "hcreate" => { dirty.remove(t[1]); }
+                    "reopen" | "create" => dirty.clear(),
+                    _ => {}
+                }
+                if !dirty.is_empty() && matches!(t[0], "walk" | "ls" | "lsroot" | "walkfrom" | "entry") {
+                    unspecified[k] = true;
+                }
+            }
+        }
+        let mask = |r: &Vec<String>| -> Vec<String> {
+            r.iter().enumerate().map(|(k, x)| if unspecified.get(k).copied().unwrap_or(false) { "-".to_string() } else { x.clone() }).collect()
+        };
+        for m in [0usize, 1025, 1500, 4096, 65536] {
+            let (r, _, _) = run(h, BackendKind::Mem, Some(m), None);
+            let (r, r0) = (mask(&r), mask(&r0));
+            evaluations += 1;
+            if r != r0 {
+                let k = r.iter().zip(r0.iter()).position(|(a, b)| a != b).unwrap_or(0);
+                violations.push(format!("history {} with max_buffer_size {}: result of step {} ({}) is {} but {} with the default", i, m, k, short(&h[k.min(h.len() - 1)]), short(&r[k.min(r.len() - 1)]), short(&r0[k.min(r0.len() - 1)])));
+            }
+        }
+        for v in [3u8, 4] {
+            let (r, _, _) = run(h, BackendKind::Mem, None, Some(v));
+            evaluations += 1;
+            if r != r0 {
+                let k = r.iter().zip(r0.iter()).position(|(a, b)| a != b).unwrap_or(0);
+                violations.push(format!("history {} in version {}: result of step {} ({}) is {} but {} in the other version", i, v, k, short(&h[k.min(h.len() - 1)]), short(&r[k.min(r.len() - 1)]), short(&r0[k.min(r0.len() - 1)])));
+            }
+        }
+    }
+    (evaluations, violations)
+}
